@@ -148,6 +148,9 @@ def main():
         lines.append(f"KNOWN-FINDING: property={prop} {hit.get('text') or what}")
 
     os.makedirs(C.REPLAY_DIR, exist_ok=True)
+    for old in os.listdir(C.REPLAY_DIR):
+        if old.startswith(prop + '-'):
+            os.remove(os.path.join(C.REPLAY_DIR, old))
     exit_code = 0
     replay_paths = []
     if new_viol:
